@@ -44,7 +44,7 @@ HERE = os.path.dirname(os.path.dirname(os.path.dirname(os.path.abspath(__file__)
 def gen_case(rng, idx, tier):
     kinds = ['lp', 'milp', 'conic', 'conic', 'ro', 'ro']
     if SRC.HAS_DRO:
-        kinds += ['dro', 'dro']
+        kinds += ['dro', 'dro', 'ro_as_dro']
     src = SRC.gen(rng, tier, kinds=kinds)
     src['variant'] = {'arr': [None, 'strided', 'fortran', 'f32', 'int', 'sparse'][
         int(rng.integers(6))]}
